@@ -345,6 +345,7 @@ static int ex_region(char *loc, int *beg, int *end)
 			xrow = *end - 1;
 		loc++;
 	}
+	xrow = MAX(0, MIN(xrow, lbuf_len(xb)));
 	if (*beg < 0 && *end == 0)
 		*beg = 0;
 	if (*beg < 0 || *beg >= lbuf_len(xb))
